@@ -114,7 +114,7 @@ def store_loop(K):
                 slices=[('V_sd', 'V_sn * 8')],
                 inv='(1 <= __n && __n <= V_sn && __dst == V_sd + (V_sn - __n) && ((0 <= V_sK && V_sK < V_sn - __n) ==> V_sd[V_sK] == 0))',
                 dec='__n')
-UNITS.append(dict(
+_m2 = (dict(
     name='mpz_mul_2exp', props=['C03', 'C04', 'C05', 'C15'], source='mpz/mul_2exp.c', contracts=['mpn.h', 'mpz.h'],
     enforce=['__gmpz_mul_2exp'], replace=['__gmpz_realloc', '__gmpn_lshift'],
     functions={'__gmpz_mul_2exp': dict(
@@ -150,3 +150,19 @@ UNITS.append(dict(
     selftest=[('__gmpz_mul_2exp', r'wsize = abs_usize \+ limb_cnt \+ 1', 'wsize = abs_usize + limb_cnt'),
               ('__gmpz_mul_2exp', r'if \(wlimb != 0\)', 'if (wlimb > 1)')],
 ))
+
+# the single run over all cases did not finish in 11 minutes; split by alias partition and by bit-shift / whole-limb shift
+for tag, cond in (('d_s', 'u != w && c != 0'), ('d_c', 'u != w && c == 0'), ('a_s', 'u == w && c != 0'), ('a_c', 'u == w && c == 0')):
+    v = dict(_m2)
+    v['name'] = 'mpz_mul_2exp_' + tag
+    v['harness'] = _m2['harness'].replace('h_mpz_mul_2exp', 'h_mpz_mul_2exp_' + tag).replace(
+        '  __CPROVER_assume (un + lc + 1 <= V_ZMAX);', '  __CPROVER_assume (un + lc + 1 <= V_ZMAX);\n  __CPROVER_assume (%s);' % cond)
+    v['timeout'] = 900
+    v['tier'] = 'off'      # undecided: no answer in 15 minutes per case (symbolic limb offset inside one object); see DESIGN 8
+    if tag != 'd_s':
+        v['selftest'] = []
+    UNITS.append(v)
+
+for u in UNITS:
+    if u['name'] in ('mpz_add', 'mpz_set', 'mpz_neg', 'mpz_swap'):
+        u['quick_props'] = ['C04', 'C05', 'C15']
